@@ -437,7 +437,7 @@ func hRestore(dir string) {
 			must(err)
 			waitTable(e, "live")
 			// large enough for the stream to take a while: several writes land while it is being produced
-			base := genContent(r, 1500, false, 1500)
+			base := genContent(r, 3000, false, 1500)
 			putAll(e, "live", base)
 			type wr struct {
 				k, v []byte
@@ -467,43 +467,58 @@ func hRestore(dir string) {
 					}
 				}
 			}()
-			time.Sleep(20 * time.Millisecond)
-			mu.Lock()
-			w0 := len(writes)
-			mu.Unlock()
-			path, declared := streamToFile(e, "live", true)
-			mu.Lock()
-			out.Stats["pit_writes_during_stream"] += len(writes) - w0
-			mu.Unlock()
+			// several streams while the writer keeps going; each must be the content at the index it declares
+			type taken struct {
+				path     string
+				declared uint64
+			}
+			var streams []taken
+			for k := 0; k < 6; k++ {
+				time.Sleep(15 * time.Millisecond)
+				mu.Lock()
+				w0 := len(writes)
+				mu.Unlock()
+				path, declared := streamToFile(e, "live", true)
+				mu.Lock()
+				out.Stats["pit_writes_during_stream"] += len(writes) - w0
+				mu.Unlock()
+				streams = append(streams, taken{path, declared})
+			}
 			time.Sleep(10 * time.Millisecond)
 			close(stop)
 			wg.Wait()
-			ms, err := readAllFrames(path, 4*1024*1024)
-			must(err)
-			os.Remove(path)
-			got := map[string]string{}
-			for _, m := range ms {
-				c := &regattapb.Command{}
-				must(c.UnmarshalVT(m))
-				if c.Type == regattapb.Command_PUT {
-					got[string(c.Kv.Key)] = string(c.Kv.Value)
-				}
-			}
-			want := map[string]string{}
-			for _, p := range base {
-				want[string(p.k)] = string(p.v)
-			}
 			sort.Slice(writes, func(i, j int) bool { return writes[i].rev < writes[j].rev })
-			for _, w := range writes {
-				if w.rev <= declared {
-					want[string(w.k)] = string(w.v)
+			same := true
+			for _, st := range streams {
+				ms, err := readAllFrames(st.path, 4*1024*1024)
+				must(err)
+				os.Remove(st.path)
+				got := map[string]string{}
+				for _, m := range ms {
+					c := &regattapb.Command{}
+					must(c.UnmarshalVT(m))
+					if c.Type == regattapb.Command_PUT {
+						got[string(c.Kv.Key)] = string(c.Kv.Value)
+					}
 				}
-			}
-			same := len(got) == len(want)
-			for k, v := range want {
-				if got[k] != v {
+				want := map[string]string{}
+				for _, p := range base {
+					want[string(p.k)] = string(p.v)
+				}
+				for _, w := range writes {
+					if w.rev <= st.declared {
+						want[string(w.k)] = string(w.v)
+					}
+				}
+				if len(got) != len(want) {
 					same = false
 				}
+				for k, v := range want {
+					if got[k] != v {
+						same = false
+					}
+				}
+				out.Count("pit_streams")
 			}
 			out.Line(fmt.Sprintf("pointintime %d", max), fmt.Sprintf("ok %s", b2i(same)))
 			out.Stats["pit_writes"] += len(writes)
